@@ -113,6 +113,13 @@ def gen_inputs(ctx):
                 continue
             pay = payload_of(base, v2, t[0] == "prv")
             out.append(("Import", {"s": T(R.b58check_enc(pay))}, ("import-unknown", "bitflip")))
+    # near misses: the integers around each known version (several of them encode to the SAME four leading characters)
+    for t in TRIPLES:
+        v = W.VERSIONS[t]
+        for dv in ((1, 2, 5, -1) if q else (1, 2, 3, 4, 5, 6, 7, -1, -2, -3, 256, -256, 65536)):
+            v2 = (v + dv) % 2 ** 32
+            if v2 not in W.VERSIONS.values():
+                out.append(("Import", {"s": T(R.b58check_enc(payload_of(base, v2, t[0] == "prv")))}, ("import-unknown", "near", dv)))
     for v2 in (0x019da462, 0x019d9cfe, 0x02facafd, 0x02fac398, 0, 0xffffffff, 0x0488b21f, 0x0488ade5):
         for prv in (True, False):
             out.append(("Import", {"s": T(R.b58check_enc(payload_of(base, v2, prv)))}, ("import-unknown", "foreign")))
